@@ -311,3 +311,36 @@ func readObsLog(path string) [][]string {
 	}
 	return recs
 }
+
+// startDaemonListening starts a daemon with a TCP backend listener on a free port and makes sure it is this
+// daemon that listens there (another process may grab a port between the moment it was found free and the bind).
+func startDaemonListening(dir, nodeID string, env []string) (*daemon, int, error) {
+	var lastErr error
+	for attempt := 0; attempt < 4; attempt++ {
+		port := freePort()
+		d, err := startDaemon(dir, nodeID, env, "--tcp-listener", fmt.Sprintf("port=%d", port), "bindaddr=127.0.0.1")
+		if err != nil {
+			lastErr = err
+			if d != nil {
+				d.kill()
+			}
+			continue
+		}
+		ok := false
+		for dl := time.Now().Add(8 * time.Second); time.Now().Before(dl) && d.alive(); {
+			c, err := net.DialTimeout("tcp", fmt.Sprintf("127.0.0.1:%d", port), time.Second)
+			if err == nil {
+				c.Close()
+				ok = true
+				break
+			}
+			time.Sleep(30 * time.Millisecond)
+		}
+		if ok && d.alive() {
+			return d, port, nil
+		}
+		lastErr = fmt.Errorf("daemon does not listen on port %d: %s", port, trunc(d.logTail(), 300))
+		d.kill()
+	}
+	return nil, 0, lastErr
+}
